@@ -166,6 +166,10 @@ class MockHost:
     def close(self):
         self.stop = True
         try:
+            self.sock.shutdown(socket.SHUT_RDWR)
+        except OSError:
+            pass
+        try:
             self.sock.close()
         except OSError:
             pass
